@@ -997,25 +997,25 @@ func sm2P256ReduceDegree(a *sm2P256FieldElement, b *sm2P256LargeFieldElement) {
 		}
 	}
 
-	carry = uint32(0)
+	// The limbs tmp[9], tmp[11], ... tmp[17] may be negative at this point (the
+	// elimination of x == 1 adds (x>>1)-1 = -1 to such a limb, and later steps
+	// subtract from it): they are read as signed values and the carry that is
+	// propagated through the result is signed as well.
+	c := int64(0)
 	for i := 0; i < 8; i++ {
-		a[i] = tmp[i+9]
-		a[i] += carry
-		a[i] += (tmp[i+10] << 28) & bottom29Bits
-		carry = a[i] >> 29
-		a[i] &= bottom29Bits
+		v := int64(int32(tmp[i+9])) + c + int64((tmp[i+10]<<28)&bottom29Bits)
+		c = v >> 29
+		a[i] = uint32(v) & bottom29Bits
 
 		i++
-		a[i] = tmp[i+9] >> 1
-		a[i] += carry
-		carry = a[i] >> 28
-		a[i] &= bottom28Bits
+		v = int64(tmp[i+9]>>1) + c
+		c = v >> 28
+		a[i] = uint32(v) & bottom28Bits
 	}
-	a[8] = tmp[17]
-	a[8] += carry
-	carry = a[8] >> 29
-	a[8] &= bottom29Bits
-	sm2P256ReduceCarry(a, carry)
+	v := int64(int32(tmp[17])) + c
+	c = v >> 29
+	a[8] = uint32(v) & bottom29Bits
+	sm2P256ReduceCarry(a, uint32(c))
 }
 
 // b = a
